@@ -38,7 +38,7 @@ PROPS = {
         level_note='private arrays _rowTypes/_colTypes are read directly (harness opens private members); single-row/column removal is only '
                    'exercised on the last index because the renumbering of other removals is undocumented',
         technique='runtime monitoring: sequential exact mirror of both LPs checked after each API call of seeded histories, under ASan+UBSan',
-        stages=lambda t: two_flavour('h_exact', 400, 1600, 2500, 10000)(t) + [memcheck_stage('h_exact', 48, 320)(t)],
+        stages=lambda t: two_flavour('h_exact', 400, 1600, 6000, 20000)(t) + [memcheck_stage('h_exact', 48, 320)(t)],
         minima=lambda t: {'memcheck.cases_completed': 45, 'c07.exact_solves': 150, 'c07.sync_checks': 8000, 'c07.op.clearLPReal': 60, 'c07.op.clearLPRational': 60, 'c07.op.changeElementRational(mpq)': 20, 'c07.op.addRowRational(mpq)': 50,
                           'c07.manual_syncLPReal': 50, 'c07.manual_syncLPRational': 50, 'c07.onlyreal_copy_checked': 50},
         eval_counter='cases', distinct_set='nontrivial',
